@@ -486,7 +486,7 @@ def chains_check(ctx, drv, mdl, rules, rule_cov, stats, quick):
     for depth in (1, 2, 3, 4):
         combos = set()
         combos.add(tuple([(2, 1)] * depth))
-        while len(combos) < (8 if quick else 40):
+        while len(combos) < min(8 if quick else 40, len(grid) ** depth):
             combos.add(tuple(r.choice(grid) for _ in range(depth)))
         for exps in sorted(combos):
             sb = r.random() < 0.4
